@@ -302,6 +302,11 @@ class Extract(Function):
         if hasattr(self.field, "nodes_"):
             yield from self.field.nodes_()
 
+    @builder
+    def replace_table(self, current_table, new_table):  # type:ignore[no-untyped-def,override]
+        self.args = [param.replace_table(current_table, new_table) for param in self.args]
+        self.field = self.field.replace_table(current_table, new_table)
+
     def get_special_params_sql(self, ctx: SqlContext) -> str:
         return "FROM {field}".format(field=self.field.get_sql(ctx))
 
